@@ -154,3 +154,20 @@ Definition site_ok (s : site) : bool :=
 
 Definition guarded_sites (l : list site) : list (string * string) :=
   flat_map (fun s => match site_class s with Some Guarded => [(s_func s, s_expr s)] | _ => [] end) l.
+
+(** * Ambient inputs: what a generation could read besides its arguments.  The output is a function of the document,
+      the configuration and the values of the ambient reads the code performs; a read is [stable] when its value is
+      fixed for a given binary (the build information), unstable when it varies from run to run. *)
+Inductive ambient := BuildInfo | Clock | Random | Environment | Host | Process | Network.
+Definition stable (a : ambient) : bool := match a with BuildInfo => true | _ => false end.
+Definition env := ambient -> nat.                       (* the value each source would yield in a run *)
+Definition same_binary (e1 e2 : env) : Prop := forall a, stable a = true -> e1 a = e2 a.
+Definition observe (reads : list ambient) (e : env) : list nat := map e reads.
+Local Open Scope string_scope.
+Definition classify_callee (c : string) : ambient :=
+  if String.eqb c "runtime/debug.ReadBuildInfo" then BuildInfo
+  else if String.prefix "time." c then Clock
+  else if String.prefix "math/rand" c || String.prefix "crypto/rand" c then Random
+  else if String.prefix "os/user" c || String.prefix "os.Get" c || String.prefix "os.Lookup" c || String.prefix "os.Environ" c || String.prefix "os.User" c || String.prefix "os.Temp" c || String.prefix "os.Args" c then Environment
+  else if String.prefix "os.Hostname" c || String.prefix "net." c then Host
+  else Process.
